@@ -80,6 +80,11 @@ def C01(F, rep, tier, cx):
     RP.P9(F, rep, cx.R)          # ... nor does a read release them behind the caller's back
     RF.K12(F, rep, cx.R, cx.FL)  # every object handed to write() reaches the file: the workers drain, close() does not cut them short
     RF.A1(F, rep, cx.FL)           # the API passes the queue's objects and its end-of-file state through unchanged
+    ws = RP.K2(F, rep, cx.R)       # "returned complete": no wait that gives up, and both sides of the stream cannot end up waiting for each other
+    cx._ws = ws
+    RP.T2(F, rep, cx.R, cx.FL, ws)
+    RP.K7(F, rep, cx.R, ws)        # one role per side of a stage: a second thread that drops or delivers data breaks the reader's step-back
+    RF.F8(F, rep, cx.FL)           # the pieces of a container reach the file in the order they were written
 
 
 def C02(F, rep, tier, cx):
@@ -146,6 +151,8 @@ def C04(F, rep, tier, cx):
     RF.F3F4(F, rep, cx.FL)
     RF.F4s(F, rep)
     RF.F7(F, rep)
+    RF.F8(F, rep, cx.FL)   # the pieces of a container reach the file in the order they were written
+    RF.K9c(F, rep, cx.R, cx.FL)   # the level / restore-point setting in force is the one the application set before its first write()
     RF.F3p(F, rep, cx.FL)
     RF.F5F6(F, rep, cx.R)
     RF.G1(F, rep)   # no state shared between File instances (a static work buffer corrupts concurrent sessions)
@@ -190,6 +197,8 @@ def C05(F, rep, tier, cx):
     LR = run_layout(F, rep, roundtrip=True, only=[], extra_classes=(FILESTAT,))
     format_table(F, rep, LR, FILESTAT, FORMAT_FILESTATISTICS, 'F2', total=144)
     stat_size(F, rep)
+    RP.K2(F, rep, cx.R)            # "counts every object": a worker that gives up after a timed wait stops counting (and writing) while the application goes on
+    RF.K12(F, rep, cx.R, cx.FL)    # ... and so does one that close() stops, or that stops on its output side
 
 
 def C06(F, rep, tier, cx):
@@ -212,6 +221,10 @@ def C06(F, rep, tier, cx):
     RF.R2(F, rep, cx.FL)         # ... and so does a read() that returns short without reporting the end
     RP.K5v(F, rep, cx.R)         # the declared end is the put position of the stage, not a count kept on the side
     RF.S1e(F, rep, cx.FL)        # the re-synchronisation loop ends at end-of-file on every alternative (else read() spins in a worker)
+    RF.M1(F, rep, cx.R)          # a session opened with in | binary has its workers started and joined like one opened with in
+    RF.K12(F, rep, cx.R, cx.FL)  # a write-mode worker stops only when its input has ended (else its producer blocks on a buffer nobody empties)
+    RP.K15(F, rep, cx.R)         # abort is final: a released waiter does not re-arm the stage
+    RP.K7(F, rep, cx.R, ws)      # one role per side of a stage: data released by a second thread is gone when the reader steps back (it then spins)
 
 
 def C07(F, rep, tier, cx):
@@ -234,6 +247,8 @@ def C07(F, rep, tier, cx):
     rep.obs = [o for o in rep.obs if o['rule'] != 'K4']
     rep.counts.pop('K4', None)
     RF.S4(F, rep)   # the get position after a seek is a function of the request and the declared end, never of how far the producer got
+    RF.G1(F, rep)           # nothing is shared between the sessions of two File objects (a static peek header makes each depend on the other's timing)
+    RF.K13(F, rep, cx.R)    # no worker aborts a stage: where the other worker is cut off would depend on how far it got
 
 
 def C08(F, rep, tier, cx):
@@ -252,6 +267,9 @@ def C08(F, rep, tier, cx):
     rep.obs = [o for o in rep.obs if o['rule'] != 'L7' or '|skip@' in o['key']]
     RF.O3(F, rep, cx.R, cx.FL)   # a file cut inside its header still gets workers that declare the end (open|workers-started); close() returns
     rep.obs = [o for o in rep.obs if o['rule'] != 'O3' or o['key'].startswith('O3|open|workers') or o['key'].startswith('O3|join')]
+    RF.S1e(F, rep, cx.FL)        # a file cut inside a signature: the search notices the end on every alternative
+    RP.P9(F, rep, cx.R)          # the header peek and the signature search step back: what they passed must still be there
+    RP.K7(F, rep, cx.R, cx.ws()) # ... and nobody but the decoding thread releases data on the get side
 
 
 def C09(F, rep, tier, cx):
@@ -266,6 +284,9 @@ def C09(F, rep, tier, cx):
     RP.K2u(F, rep, cx.R, ws)   # the producer's admission test must survive that, or everything behind the object is lost
     RF.R5(F, rep, cx.FL)       # ... and the containers delivered while the get position is ahead must still be stored
     RF.T1(F, rep, cx.FL)       # after an object the stream continues at its declared end - what follows (fill bytes, the next signature) is scanned, not swallowed
+    RF.B7(F, rep)              # the signature search steps back by 1..3 bytes: the copy that follows works on the container that holds that position
+    RP.P9(F, rep, cx.R)        # ... and what it passed is still buffered
+    RP.K7(F, rep, cx.R, ws)    # ... because only the searching thread itself releases data on its side
 
 
 def C10(F, rep, tier, cx):
@@ -286,6 +307,9 @@ def C10(F, rep, tier, cx):
     RF.O5(F, rep)                         # no cached pointer into storage that is released concurrently
     RF.E1(F, rep, cx.FL)                  # a short read is noticed before its bytes are used (otherwise the signature search spins on a dead stream)
     RP.K5v(F, rep, cx.R)                  # a rejected container must not leave a declared end beyond the delivered data
+    RF.O6(F, rep, cx.R)                   # a worker that dies on hostile input (bad_alloc) must not take the session's "open" state with it
+    RP.K7(F, rep, cx.R, ws)               # data is released on the get side by the decoding thread only (else its step-back lands in freed storage)
+    RP.P9(F, rep, cx.R)
     RF.F3F4(F, rep, cx.FL)                # the compression thread reads into a buffer that was sized for exactly that request
     rep.obs = [o for o in rep.obs if o['rule'] != 'F3']
     rep.counts.pop('F3', None)
@@ -297,8 +321,9 @@ def C11(F, rep, tier, cx):
     RP.K1(F, rep, cx.R)
     rep.obs = [o for o in rep.obs if o['rule'] != 'K4']
     rep.counts.pop('K4', None)
-    RF.S4(F, rep)   # the get position after a seek is a function of the request and the declared end, never of how far the producer got
     RF.K9(F, rep, cx.R, cx.FL)
+    RF.K9c(F, rep, cx.R, cx.FL)   # the public configuration members are read by a worker only behind a hand-over that orders the application's assignment first
+    RF.O7(F, rep, cx.FL)          # what is handed to the next stage is a fresh object, not one the worker will write to again
     RF.G1(F, rep)
     RF.O5(F, rep)
     RF.O1O2(F, rep, cx.FL, [RF.U2Q, RF.Q2U, FILE + '::read', FILE + '::write'], rules=('O1',))
@@ -314,6 +339,8 @@ def C12(F, rep, tier, cx):
     RF.K13(F, rep, cx.R)
     RF.P4(F, rep, cx.FL)
     RF.P5(F, rep, cx.FL)
+    RF.E2B3(F, rep, cx.FL, {'B3'})   # what a container occupies in memory is what it declares (the capacity test counts declared bytes)
+    RP.K7(F, rep, cx.R, cx.ws())     # one releasing role per side
 
 
 def C13(F, rep, tier, cx):
@@ -326,6 +353,8 @@ def C13(F, rep, tier, cx):
     RP.K6(F, rep, cx.R, cx.FL, cx.ws())   # "sessions shut down cleanly": close() must be able to return (shared with C06)
     RF.K12(F, rep, cx.R, cx.FL)           # ... and a write session is drained before it
     RF.A1(F, rep, cx.FL)                          # good()/eof() report the queue's state, read() hands the caller what the queue returned
+    RF.M1(F, rep, cx.R)                           # close() recognises the session open() started, whatever companion flags the mode carries
+    RF.O6(F, rep, cx.R)                           # ... and finds it still open: no worker closes the file
 
 
 def C14(F, rep, tier, cx):
@@ -338,6 +367,9 @@ def C14(F, rep, tier, cx):
     RF.K11(F, rep, cx.R, cx.FL)   # "does not depend on timing": no worker decision on a racy snapshot
     RP.K2(F, rep, cx.R)           # ... and no wait that gives up after a while
     RF.F7(F, rep)                 # ... nor on what an earlier file at the same path held
+    RF.K9c(F, rep, cx.R, cx.FL)   # ... nor on whether the compression thread fetched the level before the application set it
+    RF.R5(F, rep, cx.FL)          # ... nor on bytes the put position stepped over without writing them
+    RF.F8(F, rep, cx.FL)          # ... and the pieces reach the file in call order
 
 
 def C15(F, rep, tier, cx):
@@ -369,6 +401,8 @@ def C16(F, rep, tier, cx):
     ws = RP.K2(F, rep, cx.R, classes=qcls)
     RP.K3(F, rep, cx.R, cx.FL, ws, classes=qcls)
     RP.Q45(F, rep, cx.R, cx.FL, ws)
+    RP.K15(F, rep, cx.R)   # "end-of-stream is final": once aborted, the queue never blocks a reader again
+    rep.obs = [o for o in rep.obs if not (o['rule'] == 'K15' and 'ObjectQueue' not in o['key'])]
 
 
 def C17(F, rep, tier, cx):
@@ -380,6 +414,7 @@ def C17(F, rep, tier, cx):
     RD.D6(F, rep)
     RF.G1(F, rep)   # the factory's input (the peeked header) is not shared between File instances / threads
     RD.D7(F, rep)   # the numbers themselves are the format
+    RD.D8(F, rep)   # "carries a code ... is written under that code": a copy carries the code of what was copied
     RF.S2S3(F, rep, cx.FL, {'S2'})   # every object whose type the factory knows is built by it: the factory is asked unconditionally, nothing else skips
     RF.A1(F, rep, cx.FL)             # 'is written under that code': File::write() hands every object, whatever its code, to the queue
 
